@@ -153,7 +153,7 @@ func bd(i uint64) []wmOp { return []wmOp{{K: "b", I: i}, {K: "d", I: i}} }
 
 func runWatermark(c *corr.Ctx) error {
 	c.Meta("run_module", "RunWatermark")
-	c.Meta("rule", "2..3 threads running Begin/Done/WaitForMark lists on a real WaterMark with a window of 2..4 slots under the controlled scheduler; indices from {1,2,3} and {1, base+size} (forces rebuilds); schedules: every word of length b over 2 threads (b=9 quick, 13 thorough) for fixed programs, random block schedules for random programs; each completed round-robin. Compared after every grant: ran, yield point, DoneUntil, LastIndex, base and slot counts of the current window. non-trivial = the mark advanced and the run had a rebuild, a blocked wait, or several threads")
+	c.Meta("rule", "2..3 threads running Begin/Done/WaitForMark lists on a real WaterMark with a window of 2..4 slots under the controlled scheduler; indices from {1,2,3} and {1, base+size} (forces rebuilds); schedules: every word of length b over 2 threads (b=9 quick, 11 thorough) for fixed programs, random block schedules for random programs; each completed round-robin. Compared after every grant: ran, yield point, DoneUntil, LastIndex, base and slot counts of the current window. non-trivial = the mark advanced and the run had a rebuild, a blocked wait, or several threads")
 	c.Meta("exhaustive", true)
 	c.Meta("exhaustive_scope", "2 threads, programs (Begin 1; Done 1 | Begin 2; Done 2), (Begin 1; Done 1 | Wait 1), (Begin 2; Done 2 | Begin 6; Done 6 with 4 slots): all schedule prefixes up to the bound")
 	emit := func(d wmDesc) error {
@@ -185,7 +185,7 @@ func runWatermark(c *corr.Ctx) error {
 		return nil
 	}
 	var ferr error
-	bound := c.Scale(9, 13)
+	bound := c.Scale(9, 11)
 	if c.Tier == "search" {
 		bound = 11
 	}
@@ -207,7 +207,7 @@ func runWatermark(c *corr.Ctx) error {
 			return ferr
 		}
 	}
-	for i := 0; i < c.Scale(500, 10000); i++ {
+	for i := 0; i < c.Scale(500, 3000); i++ {
 		n := 2 + c.Rng.Intn(2)
 		size := 2 + c.Rng.Intn(3)
 		d := wmDesc{Size: size}
